@@ -4,6 +4,7 @@
 -/
 import EnvVerif.Lemmas.AssembleLemmas
 namespace EnvVerif
+namespace AW
 open Env
 
 /-! ### list forms of the mutual walk functions -/
@@ -420,7 +421,7 @@ theorem beBytes_inj : ∀ (n a b : Nat), a < 256 ^ n → b < 256 ^ n → beBytes
     simp only [UInt8.toNat_ofNat'] at h4
     omega
 
-theorem Digest.bytes_inj {d1 d2 : Digest} (h1 : d1.Valid) (h2 : d2.Valid)
+theorem digestBytes_inj {d1 d2 : Digest} (h1 : d1.Valid) (h2 : d2.Valid)
     (h : d1.bytes = d2.bytes) : d1 = d2 := by
   have hp : (2 : Nat) ^ 256 = 256 ^ 32 := by decide
   unfold Digest.Valid at h1 h2
@@ -441,7 +442,7 @@ def DiscOk (t : Option UInt8 × Digest) : Prop :=
 def tokB (t : Option UInt8 × Digest) : Option UInt8 × Bytes := (t.1, t.2.bytes)
 
 theorem tokenBytes_length_ge (t : Option UInt8 × Digest) : 32 ≤ (tokenBytes t).length := by
-  simp [tokenBytes, Digest.bytes_length]
+  simp [tokenBytes, bytes_length32]
 
 theorem flat_length_ge (l : List (Option UInt8 × Digest)) :
     32 * l.length ≤ (l.flatMap tokenBytes).length := by
@@ -466,7 +467,7 @@ theorem flat_inj : ∀ (l1 l2 : List (Option UInt8 × Digest)),
     simp at this
   | (o1, d1) :: l1, (o2, d2) :: l2, h1, h2, h => by
     have ih := flat_inj l1 l2 (fun t ht => h1 t (by simp [ht])) (fun t ht => h2 t (by simp [ht]))
-    have hl : d1.bytes.length = d2.bytes.length := by simp [Digest.bytes_length]
+    have hl : d1.bytes.length = d2.bytes.length := by simp [bytes_length32]
     have ht1 := h1 (o1, d1) (by simp)
     have ht2 := h2 (o2, d2) (by simp)
     simp only [List.flatMap_cons, tokenBytes] at h
@@ -479,7 +480,7 @@ theorem flat_inj : ∀ (l1 l2 : List (Option UInt8 × Digest)),
         simp only [List.map_cons, tokB, ha, ih hb]
       | some c =>
         exfalso
-        have hlen := d1.bytes_length
+        have hlen := bytes_length32 d1
         cases hb : d1.bytes with
         | nil => rw [hb] at hlen; simp at hlen
         | cons b r =>
@@ -493,7 +494,7 @@ theorem flat_inj : ∀ (l1 l2 : List (Option UInt8 × Digest)),
       cases o2 with
       | none =>
         exfalso
-        have hlen := d2.bytes_length
+        have hlen := bytes_length32 d2
         cases hb : d2.bytes with
         | nil => rw [hb] at hlen; simp at hlen
         | cons b r =>
@@ -517,7 +518,7 @@ theorem map_tokB_inj : ∀ (l1 l2 : List (Option UInt8 × Digest)),
   | (o1, d1) :: l1, (o2, d2) :: l2, h1, h2, h => by
     simp only [List.map_cons, List.cons.injEq, tokB, Prod.mk.injEq] at h
     obtain ⟨⟨ho, hd⟩, hr⟩ := h
-    have : d1 = d2 := Digest.bytes_inj (h1 (o1, d1) (by simp)) (h2 (o2, d2) (by simp)) hd
+    have : d1 = d2 := digestBytes_inj (h1 (o1, d1) (by simp)) (h2 (o2, d2) (by simp)) hd
     have ih := map_tokB_inj l1 l2 (fun t ht => h1 t (by simp [ht])) (fun t ht => h2 t (by simp [ht])) hr
     rw [ho, this, ih]
 
@@ -560,7 +561,7 @@ theorem image_elide_ne {e : Env} (he : e.isObscured = false) :
   have hd : disc e = none := (disc_eq_none_iff e).2 he
   simp only [List.flatMap_cons, List.flatMap_nil, List.append_nil, tokenBytes, tok, hd,
     Option.toList_some, Option.toList_none, List.nil_append, List.length_append, List.length_cons,
-    List.length_nil, Digest.bytes_length] at hl
+    List.length_nil, bytes_length32] at hl
   have := flat_length_ge rest
   cases rest with
   | nil => simp at hl
@@ -935,6 +936,74 @@ theorem elideSet_diff (h : Hash) (A : Aead) (Z : Deflate) (T : Digest → Bool) 
   rw [tokens_eq_elements, tokens_eq_elements]
   exact ⟨hd, hn, hh⟩
 
+/-! ### predicate lookups -/
+
+/-- the filter used by `assertionsWithPredicate` -/
+def matchesPred (a p : Env) : Bool :=
+  match asPredicate a.subject with
+  | some q => q.digest == p.digest
+  | none => false
+
+theorem awp_eq_filter (e p : Env) :
+    assertionsWithPredicate e p = e.assertions.filter (fun a => matchesPred a p) := rfl
+
+theorem matchesPred_iff (a p : Env) :
+    matchesPred a p = true ↔ ∃ q o d, a.subject = .assertion q o d ∧ q.digest = p.digest := by
+  unfold matchesPred
+  cases hs : a.subject <;> simp [asPredicate]
+
+theorem mem_awp {e p a : Env} :
+    a ∈ assertionsWithPredicate e p ↔
+      a ∈ e.assertions ∧ ∃ q o d, a.subject = .assertion q o d ∧ q.digest = p.digest := by
+  rw [awp_eq_filter, List.mem_filter, matchesPred_iff]
+
+theorem asObject_of_matches {a p : Env} (hm : matchesPred a p = true) :
+    ∃ q o d, a.subject = .assertion q o d ∧ q.digest = p.digest ∧ asObject a.subject = some o := by
+  obtain ⟨q, o, d, hs, hq⟩ := (matchesPred_iff a p).1 hm
+  exact ⟨q, o, d, hs, hq, by rw [hs]; rfl⟩
+
+/-- replace the predicate of an assertion (bare, or the subject of a decorated one) by its
+elided form -/
+def elidePred : Env → Env
+  | .assertion p o d => .assertion (.elided p.digest) o d
+  | .node (.assertion p o d') as d => .node (.assertion (.elided p.digest) o d') as d
+  | e => e
+
+theorem matchesPred_elidePred (a p : Env) : matchesPred (elidePred a) p = matchesPred a p := by
+  cases a with
+  | node s as d => cases s <;> rfl
+  | _ => rfl
+
+theorem elidePred_digest (a : Env) : (elidePred a).digest = a.digest := by
+  cases a with
+  | node s as d => cases s <;> rfl
+  | _ => rfl
+
+theorem elidePred_wf (h : Hash) (a : Env) (hw : WF h a) : WF h (elidePred a) := by
+  cases a with
+  | node s as d =>
+    cases s <;> try exact hw
+    simp only [elidePred, WF, Env.digest] at hw ⊢
+    exact ⟨⟨trivial, hw.1.2.1, hw.1.2.2⟩, hw.2.1, hw.2.2⟩
+  | assertion p o d =>
+    simp only [elidePred, WF, Env.digest] at hw ⊢
+    exact ⟨trivial, hw.2.1, hw.2.2⟩
+  | _ => exact hw
+
+theorem objectsFold_spec (l : List Env) (hl : ∀ a ∈ l, ∃ o, asObject a.subject = some o) :
+    l.foldr (fun a (acc : Res (List Env)) =>
+      match acc with
+      | .ok os =>
+        match asObject a.subject with
+        | some o => .ok (o :: os)
+        | none => .panic "queries.rs:objects_for_predicate:as_object.unwrap"
+      | r => r) (.ok []) = .ok (l.filterMap fun a => asObject a.subject) := by
+  induction l with
+  | nil => rfl
+  | cons a l ih =>
+    obtain ⟨o, ho⟩ := hl a (by simp)
+    simp only [List.foldr_cons, ih (fun b hb => hl b (by simp [hb])), ho, List.filterMap_cons]
+
 /-! ### sample for the satisfiability examples of C14 -/
 namespace Toy
 
@@ -964,6 +1033,50 @@ theorem exHi_ok : PlainHeadsOk exHi ∧ DigestsValid exHi ∧ (elements exHi).le
       or_false] at hx
     rcases hx with h | h | h | h <;> subst h <;> simp only [Env.digest, Digest.Valid] <;> decide
 
+/-- toy hash whose digests all have first byte 3 -/
+def hHi : Hash := ⟨fun b => ⟨3 * 2^248 + b.length⟩⟩
+def exW : Env := newWrapped hHi (newLeaf hHi (.uint 1))
+def exWr : Env := newWrapped hHi (.elided (newLeaf hHi (.uint 1)).digest)
+theorem exW_eq : exW = .wrapped (.leaf (.uint 1) ⟨3*2^248+1⟩) ⟨3*2^248+32⟩ := by
+  have h1 : (Cbor.uint 1).enc.length = 1 := by decide
+  simp [exW, newWrapped, newLeaf, hHi, Hash.ofDigests, catDigests_length, h1, Env.digest]
+theorem exWr_eq : exWr = .wrapped (.elided ⟨3*2^248+1⟩) ⟨3*2^248+32⟩ := by
+  have h1 : (Cbor.uint 1).enc.length = 1 := by decide
+  simp [exWr, newWrapped, newLeaf, hHi, Hash.ofDigests, catDigests_length, h1, Env.digest]
+theorem exW_inv : Inv hHi exW := by
+  simp [exW, Inv, WF, Canon, newWrapped, newLeaf]
+theorem exW_elide (A : Aead) (Z : Deflate) :
+    elideSet hHi A Z (fun d => d == (newLeaf hHi (.uint 1)).digest) false .elide exW = .ok exWr := by
+  have h1 : (Cbor.uint 1).enc.length = 1 := by decide
+  simp [exW, exWr, elideSet, newWrapped, newLeaf, obscure, elide, newElided, Env.digest, hHi,
+    Hash.ofDigests, catDigests_length, h1]
+theorem exW_heads : PlainHeadsOk exW ∧ PlainHeadsOk exWr := by
+  rw [exW_eq, exWr_eq]
+  have h32 : (Digest.bytes ⟨3 * 2 ^ 248 + 32⟩).head? = some 3 := by decide
+  have h1 : (Digest.bytes ⟨3 * 2 ^ 248 + 1⟩).head? = some 3 := by decide
+  constructor
+  · intro x hx hob c hc
+    simp only [elements, List.mem_cons, List.not_mem_nil, or_false] at hx
+    rcases hx with h | h <;> subst h
+    · simp only [Env.digest, h32, Option.some.injEq] at hc
+      subst hc; decide
+    · simp only [Env.digest, h1, Option.some.injEq] at hc
+      subst hc; decide
+  · intro x hx hob c hc
+    simp only [elements, List.mem_cons, List.not_mem_nil, or_false] at hx
+    rcases hx with h | h <;> subst h
+    · simp only [Env.digest, h32, Option.some.injEq] at hc
+      subst hc; decide
+    · simp [isObscured, isElided] at hob
+theorem exW_sep : hHi.H (structuralImage exW) = hHi.H (structuralImage exWr) →
+    structuralImage exW = structuralImage exWr := by
+  intro hh
+  exfalso
+  revert hh
+  rw [exW_eq, exWr_eq, structuralImage_eq_tokens, structuralImage_eq_tokens]
+  simp [hHi, tokens, walkStructure, tokenBytes, tok, disc, bytes_length32]
+
 end Toy
 
+end AW
 end EnvVerif
